@@ -325,7 +325,7 @@ def run(tier, seed, n=None):
             "oracle_failures": {},
             # `goodB` (the executable hypothesis of the *_pandas theorems, sound by goodB_sound) on alpha(series)
             "theorem_hypotheses": {"good": 0, "not_good": 0, "failing_conjuncts": {}, "good_nontrivial": 0,
-                                   "finding_on_good_input": 0}}
+                                   "good_and_guards_ok": 0, "finding_on_good_input": 0}}
     nontriv = set()
     for i, o in enumerate(obs):
         st = o["recipe"].get("stream", "?")
@@ -345,6 +345,8 @@ def run(tier, seed, n=None):
             disagreements.append({"kind": "pandas", "recipe": o["recipe"], "diffs": d[:4]})
         gd = answers[i].get("good", {})
         th = dist["theorem_hypotheses"]
+        if gd.get("good") and gd.get("guardsOk"):
+            th["good_and_guards_ok"] += 1
         if gd.get("good"):
             th["good"] += 1
         else:
@@ -356,7 +358,9 @@ def run(tier, seed, n=None):
             # a failure can only be a *known* finding where the model (which mirrors the known defects) agrees
             # with the code on this very input
             f["known_eligible"] = not d
-            if gd.get("good") and f["property"] in ("C02", "C03", "C04", "C16") and not d:
+            total_applies = gd.get("good") and gd.get("guardsOk") and f["property"] == "C09" and \
+                f["signature"].startswith(("transform ", "guard ", "infer"))
+            if (gd.get("good") and f["property"] in ("C02", "C03", "C04", "C16") or total_applies) and not d:
                 # the theorems C0x_pandas apply to this input (Good holds, model == code): the property cannot
                 # fail here, so this can never be excused as a known finding
                 f["known_eligible"] = False
